@@ -56,10 +56,24 @@ def isDigit (c : Nat) : Bool := 48 ≤ c && c ≤ 57
 
 def maxInt64 : Nat := 9223372036854775807
 
-/-- value of a digit string, `none` on a non-digit (syntax error) -/
-def digitsVal : Bytes → Nat → Option Nat
-  | [], acc => some acc
-  | c :: r, acc => if isDigit c then digitsVal r (acc * 10 + (c - 48)) else none
+def maxUint64 : Nat := 18446744073709551615
+
+/-- outcome of `strconv.ParseUint(s, 10, 64)` -/
+inductive PU where
+  | ok (v : Nat)
+  | syntax        -- a byte that is not a decimal digit
+  | range         -- the value does not fit 64 bits (detected before any later bad byte is looked at)
+  deriving Repr, DecidableEq
+
+/-- the digit loop of `strconv.ParseUint`:
+`if n >= cutoff → range; n *= 10; n1 := n + d; if n1 < n || n1 > maxVal → range` -/
+def parseUint : Bytes → Nat → PU
+  | [], n => .ok n
+  | c :: r, n =>
+    if !isDigit c then .syntax
+    else if n ≥ maxUint64 / 10 + 1 then .range
+    else if n * 10 + (c - 48) > maxUint64 then .range
+    else parseUint r (n * 10 + (c - 48))
 
 /-- the optional sign of `strconv.Atoi` -/
 def signSplit : Bytes → Bool × Bytes
@@ -67,15 +81,16 @@ def signSplit : Bytes → Bool × Bytes
   | 45 :: r => (true, r)
   | s => (false, s)
 
-/-- `n, _ := strconv.Atoi(s)`: optional sign, decimal digits; 0 on a syntax error, clamped to the int64
-range on a range error (the error is ignored by the caller) -/
+/-- `n, _ := strconv.Atoi(s)`: optional sign, decimal digits; 0 on a syntax error, the int64 bound on a
+range error (the error is ignored by the caller) -/
 def atoi (s : Bytes) : Int :=
   let neg := (signSplit s).1
   let ds := (signSplit s).2
   if ds.isEmpty then 0 else
-  match digitsVal ds 0 with
-  | none => 0
-  | some v =>
+  match parseUint ds 0 with
+  | .syntax => 0
+  | .range => if neg then -((maxInt64 + 1 : Nat) : Int) else (maxInt64 : Int)
+  | .ok v =>
     if neg then (if v > maxInt64 + 1 then -((maxInt64 + 1 : Nat) : Int) else -(v : Int))
     else (if v > maxInt64 then (maxInt64 : Int) else (v : Int))
 
